@@ -25,7 +25,10 @@ from . import c08_lib as L
 from .sx import Sym, d_float, d_str, e_float
 
 RULE = ('C01 operation histories restricted to counter/gauge/summary/histogram x the 10 gauge multiprocess modes: 1-4 '
-        'families x 0-3 label names (legacy, UTF-8, unusual strings; `pid` on gauges in a dedicated stream) x the C01 amount '
+        'families x 0-3 label names (legacy, UTF-8, unusual strings; `pid` on gauges in a dedicated stream; a quarter of the '
+        'families - and a fixed slice over every type and gauge mode - carry a USER label named le / quantile / pid on a type that '
+        'does not reserve the name (le: counter, summary, gauge; quantile: counter, gauge, histogram; pid: counter, summary, '
+        'histogram), with values float() accepts (several spellings of one number) and rejects) x the C01 amount '
         'classes (ordinary, >2^53, tiny, negative, +-Inf, NaN, -0.0, ints incl. unconvertible, bools) x bucket layouts '
         '(default, negative first bound, duplicates, -0.0/0.0, int bounds, huge) x help texts, namespace/subsystem/unit; '
         'addresses parent | positional | keyword (permuted, wrong names/count) | both; labels()/remove()/clear(); fixed '
@@ -47,7 +50,8 @@ TRUSTED = ['Section hypotheses of props/C12.v: FL1 (v == 0.0 + v numerically, Na
            '(C12_counts_bounded_by_observes, proofs/EquivLenProofs.v)',
            'OCaml float + < <= = (compared with CPython on every case)']
 ASSUMPTIONS = ['one process, one thread, one registry: family names pairwise distinct and no sample-name collisions (C06)',
-               'label names of a family pairwise distinct; `le` (histogram) and `quantile` (summary) are reserved by the library',
+               'label names of a family pairwise distinct; `le` is reserved by Histogram ONLY and `quantile` by Summary ONLY (the library '
+               'rejects them at construction there); on every other type they are ordinary label names and are generated',
                'bucket bounds are not NaN',
                'domain of C12_equiv: no remove()/clear() in the history (multiprocess mode does not implement removal and '
                'warns), no gauge label named pid, process id without underscore; for histograms additionally bounds strictly '
@@ -126,8 +130,15 @@ def flatten(metrics):
     return out
 
 
-def run_history(case, collect, tick):
+def run_history(case, collect0, tick):
     from prometheus_client import CollectorRegistry
+
+    def collect():
+        # a collection that raises is an observation (the series cannot be read), not a harness failure
+        try:
+            return collect0()
+        except Exception as e:
+            return {'raised': type(e).__name__, 'msg': str(e)[:200]}
     reg = CollectorRegistry()
     fams = [construct(fd, reg) for fd in case['fams']]
     run_history.registry = reg
@@ -434,16 +445,21 @@ def impl(case):
         if ms is None or ps is None:
             agree.append(None)
             continue
+        if isinstance(ms, dict) or isinstance(ps, dict):
+            agree.append([False, ['unexplained'],
+                          [['<in-process collect() raised>', [], ms['raised'] + ': ' + ms['msg']]] if isinstance(ms, dict) else [],
+                          [['<multiprocess collect() raised>', [], ps['raised'] + ': ' + ps['msg']]] if isinstance(ps, dict) else []])
+            continue
         a, b = norm_mem(case, track, ms), norm_mp(case, ps, pid)
         only_mem, only_mp = multiset_diff(a, b)
         tags = sorted({explain(case, track, s, 'mem') or 'unexplained' for s in only_mem} |
                       {explain(case, track, s, 'mp') or 'unexplained' for s in only_mp})
         agree.append([not only_mem and not only_mp, tags, only_mem[:3], only_mp[:3]])
-    return {'mem': [[o, None if ss is None else
+    return {'mem': [[o, ss if ss is None or isinstance(ss, dict) else
                      canon_series([[sn, ls, v] for _f, _t, _h, sn, ls, v in ss
                                    if not (_t in ('counter', 'summary', 'histogram') and sn == _f + '_created')])]
                     for o, ss in mem],
-            'mp': [[o, None if ss is None else canon_families(ss, pid)] for o, ss in mp['steps']],
+            'mp': [[o, ss if ss is None or isinstance(ss, dict) else canon_families(ss, pid)] for o, ss in mp['steps']],
             'files': canon_files(mp['files'], pid),
             'agree': agree}
 
@@ -569,10 +585,28 @@ ODD_VALUES = [['s', ''], ['s', ' '], ['s', '"'], ['s', '\\'], ['s', '\n'], ['s',
 UNITS = ['seconds', 'bytes', 'total']
 
 
-def gen_family(rng, idx, kind=None, layouts='good', pid_label=False, nlabels=None):
+# label names one metric class (or the multiprocess collector) gives a meaning to, declared by the USER on the types that
+# do not reserve them: `le` (Histogram only), `quantile` (Summary only), `pid` (added by the collector to gauges only; a
+# gauge label named pid is the known finding pidlabel and has its own stream)
+RESERVED_FOR = {'counter': ['le', 'le', 'quantile', 'pid'], 'summary': ['le', 'le', 'pid'],
+                'gauge': ['le', 'le', 'quantile'], 'histogram': ['quantile', 'pid']}
+RESERVED_SHARE = 0.25
+# values of such a label: texts float() accepts (several spellings of one number) and texts it rejects, any Python object
+RESERVED_VALUES = [['s', '0.5'], ['s', '1'], ['s', '1.0'], ['f', C1.fhex(1.0)], ['i', 1], ['s', '+Inf'], ['s', 'inf'],
+                   ['s', 'abc'], ['s', ''], ['s', 'nan'], ['s', '1_0'], ['s', ' 2 '], ['b', True], ['n'], ['s', '0x10']]
+
+
+def gen_family(rng, idx, kind=None, layouts='good', pid_label=False, nlabels=None, reserved=None):
     kind = kind or rng.choice(KINDS)
     fd = C1.gen_family(rng, idx, kind=kind, nlabels=nlabels)
-    fd['labels'] = [l for l in fd['labels'] if l not in ('le', 'quantile')]
+    fd['labels'] = [l for l in fd['labels'] if l not in ('le', 'quantile', 'pid')]
+    if rng.random() < (RESERVED_SHARE if reserved is None else reserved):
+        r = rng.choice(RESERVED_FOR[kind])
+        ls = fd['labels'][:2]
+        ls.insert(rng.randrange(len(ls) + 1), r)
+        if rng.random() < 0.1:
+            ls = (ls + [n for n in RESERVED_FOR[kind] if n not in ls][:1])[-3:]
+        fd['labels'] = ls
     if kind == 'histogram':
         pool = dict(good=GOOD_LAYOUTS, neg=NEG_LAYOUTS, dup=DUP_LAYOUTS)[layouts]
         lay = rng.choice(pool)
@@ -609,6 +643,8 @@ def gen_history(rng, nfam=None, length=None, removal=False, layouts='good', pid_
     pool = ODD_VALUES if odd else C1.LV_POOL
     start = rng.randrange(len(pool))
     small = [pool[(start + j) % len(pool)] for j in range(k)]
+    if any(n in ('le', 'quantile', 'pid') for fd in fams for n in fd['labels']) and rng.random() < 0.7:
+        small = small[:2] + rng.sample(RESERVED_VALUES, rng.randrange(2, 5))
     ops = []
     for _ in range(length):
         f = rng.randrange(nfam)
@@ -664,6 +700,28 @@ def fixed_cases():
                                   ['upd', 0, 'P', ['inc']], ['upd', 0, B, ['dec', ['i', 10 ** 400]]]])
         yield dict(fams=[fam('gauge', 'g', [], mode=mode)], ops=[])
         yield dict(fams=[fam('gauge', 'g', [], mode=mode)], ops=[['upd', 0, 'P', ['set', ['i', 0]]]])
+    # a USER label named le / quantile / pid on every type that does not reserve the name (inside the domain of the
+    # theorem: keys_wf excludes le for histograms only, wf_reg excludes pid for gauges only), alone and next to an ordinary
+    # label on either side of it; label values float() accepts - two spellings of one number - and rejects
+    def lvs(v, others):
+        return ['pos', [['s', v]] + [['s', 'x']] * len(others)]
+    variants = [('counter', dict())] + [('summary', dict())] + [('histogram', dict(buckets=enc_layout([0.5, 1.0])))] + \
+        [('gauge', dict(mode=m)) for m in ('all', 'liveall', 'min', 'livesum', 'mostrecent')]
+    for kind, kw in variants:
+        meth = dict(counter='inc', gauge='set', summary='obs', histogram='obs')[kind]
+        for rname in sorted(set(RESERVED_FOR[kind])):
+            for others in ([], ['a'], ['z']):
+                for vals in (['0.5', '1', '1.0'], ['abc', '', '+Inf']):
+                    fd = fam(kind, 'm', [rname] + others, **kw)
+                    plain = fam(kind, 'p', others, **kw)
+                    pa = lvs('x', others[1:]) if others else 'P'
+                    yield dict(fams=[fd, plain],
+                               ops=[['upd', 0, lvs(vals[0], others), [meth, ['f', f(0.75)]]],
+                                    ['upd', 0, lvs(vals[1], others), [meth, ['i', 2]]],
+                                    ['labels', 0, lvs(vals[2], others)],
+                                    ['upd', 1, pa, [meth, ['f', f(0.25)]]],
+                                    ['upd', 0, lvs(vals[0], others), [meth, ['f', f(4.0)]]],
+                                    ['upd', 0, lvs(vals[2], others), [meth, ['f', f(0.5)]]]])
     yield dict(fams=[fam('counter', 'c_total', ['b', 'a'], help='h"\n'), fam('summary', 's', ['a']),
                      fam('histogram', 'h', ['x', 'a', 'm']), fam('counter', 'c2')],
                ops=[['upd', 0, ['kw', [['a', ['i', 1]], ['b', ['s', '1']]]], ['inc']],
@@ -747,6 +805,9 @@ def classify(case, obs):
             keys.append('mode:' + fd.get('mode', 'all'))
         for c in finding_classes(fd):
             keys.append('class:' + c)
+        for n in fd['labels']:
+            if n in ('le', 'quantile', 'pid') and not (fd['kind'] == 'gauge' and n == 'pid'):
+                keys.append('user_label:%s_on_%s' % (n, fd['kind']))
     for (o, _s), op in zip(obs['mem'][1:], case['ops']):
         keys.append('outcome:' + C1.cls3(o))
         keys.append('op:' + op[0] + (':' + op[3][0] if op[0] == 'upd' else ''))
